@@ -5,6 +5,7 @@ import (
 	"context"
 	"encoding/json"
 	"fmt"
+	"io"
 	"math"
 	"os"
 	"os/exec"
@@ -679,6 +680,75 @@ func c20Cases(quick bool) []c20Case {
 			if n, err := b.DownloadToStream(w.Ctx, "big", &buf); err == nil && (int(n) != len(content) || !bytes.Equal(buf.Bytes(), content)) {
 				panic(fmt.Sprintf("an upload of %d bytes that was acknowledged downloads as %d bytes (equal content: %v)", len(content), n, bytes.Equal(buf.Bytes(), content)))
 			}
+			_ = db.Drop(w.Ctx)
+		})
+	}
+	// downloads from hand-made files and chunks collections whose chunks do not fit the file record (short, empty,
+	// missing or oversized last chunk, a gap, a chunk of the wrong type): every seek target, then reads to the end
+	for _, shape := range []string{"last chunk empty", "last chunk short", "last chunk missing", "last chunk too long", "middle chunk missing", "data is a string", "length negative", "no chunks at all"} {
+		shape := shape
+		add("driver-gridfs-handmade", true, func() string {
+			return "GridFS download from a hand-made bucket (file record: length 10, chunk size 4): " + shape + "; Seek to every position from -1 to 12 from the start, the end and the current position, then Read"
+		}, func(w *world.World) {
+			db := w.Client.Database("gfshand")
+			_ = db.Drop(w.Ctx)
+			b := lungo.NewBucket(db)
+			length := int32(10)
+			if shape == "length negative" {
+				length = -10
+			}
+			_, _ = b.GetFilesCollection(w.Ctx).InsertOne(w.Ctx, bD("_id", "f", "length", length, "chunkSize", int32(4), "uploadDate", primitive.DateTime(0), "filename", "f"))
+			chunk := func(n int32, data interface{}) {
+				_, _ = b.GetChunksCollection(w.Ctx).InsertOne(w.Ctx, bD("_id", primitive.NewObjectID(), "files_id", "f", "n", n, "data", data))
+			}
+			bin := func(k int) primitive.Binary { return primitive.Binary{Data: []byte("abcdefgh")[:k]} }
+			if shape != "no chunks at all" {
+				chunk(0, bin(4))
+				if shape != "middle chunk missing" {
+					chunk(1, bin(4))
+				}
+				switch shape {
+				case "last chunk empty":
+					chunk(2, bin(0))
+				case "last chunk short":
+					chunk(2, bin(1))
+				case "last chunk too long":
+					chunk(2, bin(7))
+				case "data is a string":
+					chunk(2, "xy")
+				case "last chunk missing":
+				default:
+					chunk(2, bin(2))
+				}
+			}
+			for _, whence := range []int{io.SeekStart, io.SeekEnd, io.SeekCurrent} {
+				for pos := int64(-1); pos <= 12; pos++ {
+					st, err := b.OpenDownloadStream(w.Ctx, "f")
+					if err != nil {
+						continue
+					}
+					off := pos
+					if whence == io.SeekEnd {
+						off = pos - 10
+					}
+					if whence == io.SeekCurrent {
+						_, _ = st.Read(make([]byte, 3))
+						off = pos - 3
+					}
+					_, _ = st.Seek(off, whence)
+					buf := make([]byte, 5)
+					for k := 0; k < 6; k++ {
+						if _, err := st.Read(buf); err != nil {
+							break
+						}
+					}
+					_, _ = st.Skip(2)
+					_ = st.Close()
+				}
+			}
+			var buf bytes.Buffer
+			_, _ = b.DownloadToStream(w.Ctx, "f", &buf)
+			_ = b.Delete(w.Ctx, "f")
 			_ = db.Drop(w.Ctx)
 		})
 	}
